@@ -245,11 +245,23 @@ impl RemoteStateActor {
         shutdown_token: CancellationToken,
     ) -> (EndpointId, Vec<RemoteStateMessage>) {
         trace!("actor started");
+        #[cfg(feature = "verif-hooks")]
+        crate::verif_hooks::event(
+            "actor.start",
+            &[
+                ("remote", self.state.endpoint_id.to_string()),
+                ("initial", initial_msgs.len().to_string()),
+            ],
+        );
         for msg in initial_msgs {
             self.handle_message(msg).await;
         }
         let idle_timeout = time::sleep(ACTOR_MAX_IDLE_TIMEOUT);
         n0_future::pin!(idle_timeout);
+        #[cfg(feature = "verif-hooks")]
+        if let Some(d) = crate::verif_hooks::remote_map::idle_timeout_override() {
+            idle_timeout.as_mut().reset(Instant::now() + d);
+        }
 
         let check_connections = time::interval(UPGRADE_INTERVAL);
         n0_future::pin!(check_connections);
@@ -269,6 +281,10 @@ impl RemoteStateActor {
                 idle_timeout
                     .as_mut()
                     .reset(Instant::now() + ACTOR_MAX_IDLE_TIMEOUT);
+                #[cfg(feature = "verif-hooks")]
+                if let Some(d) = crate::verif_hooks::remote_map::idle_timeout_override() {
+                    idle_timeout.as_mut().reset(Instant::now() + d);
+                }
             }
 
             tokio::select! {
@@ -329,11 +345,17 @@ impl RemoteStateActor {
                     } else {
                         // Seems like we weren't really idle, so we reset
                         idle_timeout.as_mut().reset(Instant::now() + ACTOR_MAX_IDLE_TIMEOUT);
+                        #[cfg(feature = "verif-hooks")]
+                        if let Some(d) = crate::verif_hooks::remote_map::idle_timeout_override() {
+                            idle_timeout.as_mut().reset(Instant::now() + d);
+                        }
                     }
                 }
             }
         }
 
+        #[cfg(feature = "verif-hooks")]
+        crate::verif_hooks::pause("remote_state.before_inbox_close");
         inbox.close();
         // There might be a race between checking `inbox.is_empty()` and `inbox.close()`,
         // so we pull out all messages that are left over.
@@ -341,6 +363,14 @@ impl RemoteStateActor {
         inbox.recv_many(&mut leftover_msgs, inbox.len()).await;
 
         trace!("actor terminating");
+        #[cfg(feature = "verif-hooks")]
+        crate::verif_hooks::event(
+            "actor.stop",
+            &[
+                ("remote", self.state.endpoint_id.to_string()),
+                ("leftover", leftover_msgs.len().to_string()),
+            ],
+        );
         (self.state.endpoint_id, leftover_msgs)
     }
 
@@ -357,6 +387,33 @@ impl RemoteStateActor {
     #[instrument(skip(self))]
     async fn handle_message(&mut self, msg: RemoteStateMessage) {
         // trace!("handling message");
+        #[cfg(feature = "verif-hooks")]
+        if crate::verif_hooks::events_enabled() {
+            let (kind, detail) = match &msg {
+                RemoteStateMessage::SendDatagram(..) => ("send_datagram", String::new()),
+                RemoteStateMessage::AddConnection(conn, _) => {
+                    ("add_connection", conn.stable_id().to_string())
+                }
+                RemoteStateMessage::ResolveRemote(addrs, _) => (
+                    "resolve_remote",
+                    addrs
+                        .iter()
+                        .map(|a| format!("{a:?}"))
+                        .collect::<Vec<_>>()
+                        .join(","),
+                ),
+                RemoteStateMessage::RemoteInfo(_) => ("remote_info", String::new()),
+                RemoteStateMessage::NetworkChange { .. } => ("network_change", String::new()),
+            };
+            crate::verif_hooks::event(
+                "actor.handle",
+                &[
+                    ("remote", self.state.endpoint_id.to_string()),
+                    ("kind", kind.to_string()),
+                    ("detail", detail),
+                ],
+            );
+        }
         match msg {
             RemoteStateMessage::SendDatagram(sender, transmit) => {
                 self.state.handle_msg_send_datagram(sender, transmit).await;
